@@ -5,6 +5,9 @@ From LTV.C19 Require Import Model ProofsHeap ProofsSched ProofsRun.
 Import ListNotations.
 Open Scope Z_scope.
 
+Lemma params_ok_now_aux : 0 < min_time_wait /\ 0 < min_time_update.
+Proof. vm_compute. split; reflexivity. Qed.
+
 Definition wf_env (E : env) (n : nat) : Prop := forall e, valid E e = true -> (e < n)%nat.
 
 Lemma push_heap_keeps_heap : forall l v, heap_ok l ->
@@ -135,6 +138,52 @@ Proof. exact ProofsRun.loop_never_oversleeps. Qed.
 Lemma loop_refines : forall E s t1 d m c s' evs, Inv E s -> loop E s t1 d m c = (s', evs) ->
   Inv E s' /\ LoopIter E s t1 d m c evs s'.
 Proof. exact ProofsRun.loop_refines. Qed.
+
+(* utils::ceil_seconds / wait_for_ceil_seconds rounding *)
+Lemma ceil_seconds_round : forall t, 0 <= t ->
+  t <= ceil_seconds t < t + 1000000 /\ ceil_seconds t mod 1000000 = 0.
+Proof.
+  intros t Ht. unfold ceil_seconds. rewrite Z.quot_div_nonneg by lia.
+  split; [|apply Z_mod_mult].
+  pose proof (Z.div_mod (t + 1000000 - 1) 1000000 ltac:(lia)).
+  pose proof (Z.mod_pos_bound (t + 1000000 - 1) 1000000 ltac:(lia)). lia.
+Qed.
+
+(* duration_cast truncates toward zero, so for negative times the result can be a full second
+   or more after the argument (irrelevant for accepted timers: they are >= 365 days) *)
+Lemma ceil_seconds_negative_refuted : exists t, t < 0 /\ ~ (ceil_seconds t < t + 1000000).
+Proof. exists (-1500000). split; [lia|]. vm_compute. intro H. discriminate H. Qed.
+
+Lemma ceil_seconds_pos_inv : forall x, 0 < ceil_seconds x -> 0 <= x.
+Proof.
+  intros x H. unfold ceil_seconds in H. destruct (Z_lt_le_dec x 0); auto. exfalso.
+  assert (Z.quot (x + 1000000 - 1) 1000000 <= 0); [|lia].
+  destruct (Z_lt_le_dec (x + 1000000 - 1) 0).
+  - pose proof (Z.quot_opp_l (x + 1000000 - 1) 1000000 ltac:(lia)).
+    pose proof (Z.quot_pos (- (x + 1000000 - 1)) 1000000 ltac:(lia) ltac:(lia)). lia.
+  - rewrite Z.quot_small; lia.
+Qed.
+
+(* a successful wait_for_ceil_seconds / update_wait_for_ceil_seconds schedules the entry on a whole
+   second, never earlier than cached_time + dt and less than one second later *)
+Lemma wait_for_ceil_rounding : forall E s e dt s' b, Inv E s ->
+  b = WaitForCeil e dt \/ b = UpdForCeil e dt -> exec_basic E s b = (s', OOk) ->
+  exists D, due s' e D /\ now s + dt <= D < now s + dt + 1000000 /\ D mod 1000000 = 0.
+Proof.
+  intros E s e dt s' b I Hb H.
+  pose proof params_ok_now_aux as (P1 & P2).
+  exists (ceil_seconds (now s + dt)).
+  assert (X : due s' e (ceil_seconds (now s + dt)) /\ 0 < ceil_seconds (now s + dt)).
+  { destruct Hb; subst b; simpl in H.
+    - destruct (dt >? _); [inversion H|].
+      apply wait_until_spec in H; auto. destruct H as (_ & _ & [[X _]|(_ & M & _ & _ & SD)]); [discriminate|].
+      split; [apply SD; auto|lia].
+    - destruct (dt >? _); [inversion H|].
+      apply update_wait_until_spec in H; auto. destruct H as (_ & _ & [[X _]|(_ & M & _ & SD)]); [discriminate|].
+      split; [apply SD; auto|lia]. }
+  destruct X as (D & Pos). split; auto.
+  apply ceil_seconds_round. apply ceil_seconds_pos_inv. auto.
+Qed.
 
 (* constants re-extracted from scheduler.cc *)
 Definition params_ok : bool :=
